@@ -93,9 +93,10 @@ def run(ctx):
         viols, drifts, _ = V.leg_v(ctx, "ProxySessionTrace", "ProxySessionTrace.cfg", pf, label="V-hist%d" % k)
         handle(ctx, viols, pf, "history")
     ctx.cov["samples"].append([json.loads(x) for x in hl[:6]])
-    # Leg C: the same user's session used at two upstreams with different group rules at the same time
+    # Leg C: the same user's session used at two upstreams with different group rules at the same time, and two
+    # sessions of one user (one of them revoked) used at one upstream at the same time
     pairs_lines = 0
-    if ctx.id == "C01":
+    if ctx.id in ("C01", "C04"):
         pairs = os.path.join(ctx.scratch, "pairs.ndjson")
         pr = V.harness(ctx, ["ps-pairs", "-out", pairs, "-seed", ctx.seed, "-n", 300 if quick else 6000, "-workers", 8])
         viols, drifts, _ = V.leg_v(ctx, "ProxySessionTrace", "ProxySessionTrace.cfg", pairs, label="V-pairs")
